@@ -77,6 +77,60 @@ def _run_params(fname, ps):
     raise ValueError(fname)
 
 
+def _run_dtype(fname, dt):
+    ps = [torch.tensor(v, dtype=dt, requires_grad=True) for v in (0.7, -0.4, 1.3)]
+    use = lambda p: (1 + 0.1 * p[0]) * (1 + 0.1 * p[1]) * (1 + 0.1 * p[2])
+    if fname == "rootfinder":
+        out = xitorch.optimize.rootfinder(lambda y, *p: y - 0.3 * torch.tanh(y) - use(p), torch.zeros(2, dtype=dt), params=ps)
+    elif fname == "equilibrium":
+        out = xitorch.optimize.equilibrium(lambda y, *p: 0.3 * torch.tanh(y) + use(p), torch.zeros(2, dtype=dt), params=ps)
+    elif fname == "minimize":
+        out = xitorch.optimize.minimize(lambda y, *p: (0.5 * (y - use(p)) ** 2 + 0.1 * torch.log(torch.cosh(y))).sum(), torch.zeros(2, dtype=dt), params=ps)
+    elif fname == "solve_ivp":
+        out = xitorch.integrate.solve_ivp(lambda t, y, *p: -y * use(p), torch.linspace(0.0, 0.5, 3, dtype=dt), torch.ones(2, dtype=dt), params=ps, method="rk45")
+    elif fname == "quad":
+        out = xitorch.integrate.quad(lambda x, *p: torch.sin(x * use(p)).reshape(1), torch.tensor(0.1, dtype=dt), torch.tensor(0.9, dtype=dt), params=ps, n=6)
+    else:
+        out = xitorch.integrate.mcquad(lambda x, *p: x.sum() * use(p) + torch.zeros(1, dtype=dt), lambda x, *p: (-0.5 * (x - 0.1 * use(p)) ** 2).sum(),
+                                       torch.zeros(1, dtype=dt), fparams=ps, pparams=ps, method="mhcustom", nsamples=4, nburnout=2, custom_step=lambda x, *p: x * 0.5 + 0.3)
+    g = torch.autograd.grad(out.sum(), ps, create_graph=True, allow_unused=True)
+    s = sum((x ** 2).sum() for x in g if x is not None)
+    h = torch.autograd.grad(s, ps, allow_unused=True)
+    return out, g, h
+
+
+def precision_rows(ctx, functionals, prefix):
+    """single precision: value, first- and second-order gradients are float32 tensors close to the double-precision ones"""
+    n = 0
+    with warnings.catch_warnings():
+        warnings.simplefilter("ignore")
+        for fname in functionals:
+            n += 1
+            ctx.case(key=("float32", fname))
+            why = None
+            try:
+                o64, g64, h64 = _run_dtype(fname, torch.float64)
+                o32, g32, h32 = _run_dtype(fname, torch.float32)
+                bad = [str(x.dtype) for x in [o32] + list(g32) + list(h32) if x is not None and x.dtype != torch.float32]
+                if bad:
+                    why = "single-precision inputs give %s results" % sorted(set(bad))
+                elif not torch.allclose(o32.double(), o64, atol=1e-4, rtol=1e-4):
+                    why = "single-precision value differs from the double-precision one by %.2e" % float((o32.double() - o64).abs().max())
+                else:
+                    for nm, a32, a64, tol in [("first", a, b, 2e-4) for a, b in zip(g32, g64)] + [("second", a, b, 5e-3) for a, b in zip(h32, h64)]:
+                        if (a32 is None) != (a64 is None):
+                            why = "%s-order gradient present in one precision only" % nm
+                        elif a32 is not None and not torch.allclose(a32.double(), a64, atol=tol, rtol=tol):
+                            why = "%s-order gradient in single precision differs from double precision by %.2e" % (nm, float((a32.double() - a64).abs().max()))
+                        if why:
+                            break
+            except Exception as e:
+                why = "raised %s: %s" % (type(e).__name__, str(e)[:140])
+            if why:
+                ctx.violation("%s/float32/%s" % (prefix, fname), "%s in single precision: %s" % (fname, why), {"f": fname})
+    return n
+
+
 def dependent_rows(ctx, functionals, prefix):
     """Parameters computed from one another (p2 = 2 p1 + 0.1, p3 = p1 p2 passed next to p1): the gradient w.r.t. the leaf is the TOTAL
     derivative.  Reference: the same functional on three independent leaves of the same values, combined by the chain rule
@@ -157,4 +211,4 @@ def replay(ctx, functionals, prefix):
             if why:
                 ctx.violation("%s/gradpattern/%s" % (prefix, fname), "%s with extra parameters of kinds %s (tg: tensor requiring grad, tu: unused tensor requiring grad, tn: tensor without grad, num: number): %s"
                               % (fname, ks, why), {"f": fname, "ks": ks})
-    return n + dependent_rows(ctx, functionals, prefix)
+    return n + dependent_rows(ctx, functionals, prefix) + precision_rows(ctx, functionals, prefix)
